@@ -43,9 +43,23 @@ def build_signal(spec, L):
 		v[p:q] += float(r.choice([1, 2, 5, 0.5]))
 	for _ in range(spec.get("n_gaps", 1)):
 		p = r.randint(0, max(1, L))
-		q = min(L, p + r.randint(1, 60))
+		q = min(L, p + r.randint(1, spec.get("gap_len", 60)))
 		v[p:q] = numpy.nan
 	return v
+
+
+def nan_runs(v):
+	runs, i, n = [], 0, len(v)
+	while i < n:
+		if numpy.isnan(v[i]):
+			j = i
+			while j < n and numpy.isnan(v[j]):
+				j += 1
+			runs.append((i, j))
+			i = j
+		else:
+			i += 1
+	return runs
 
 
 class C17(runner.Check):
@@ -118,17 +132,30 @@ class C17(runner.Check):
 				blocks.append([bl, gc, nf, r.chance(0.1)])
 				tot += bl
 			chroms.append({"name": "chr%d" % (i + 1), "length": L, "seq_seed": r.subseed(),
-				"blocks": blocks, "n_bumps": r.randint(0, 6), "n_gaps": r.randint(0, 2)})
+				"blocks": blocks, "n_bumps": r.randint(0, 6), "n_gaps": r.randint(0, 3),
+				"gap_len": r.choice([60, 60, 2 * w, 4 * w])})
 		loci = []
 		n_loci = r.wchoice([r.randint(5, 30), r.randint(30, 200)], [3, 1])
 		loci_chroms = r.sample(chroms, r.randint(1, len(chroms)))
 		for _ in range(n_loci):
 			c = r.choice(loci_chroms)
 			L = c["length"]
-			kind = r.wchoice(["inside", "boundary", "edge", "zero", "wide"], [8, 2, 2, 1, 1])
+			kind = r.wchoice(["inside", "boundary", "edge", "zero", "wide", "in_gap"],
+				[8, 2, 2, 1, 1, 2 if use_bw else 0])
+			if kind == "in_gap":
+				runs = nan_runs(build_signal(c, L))
+				if runs:
+					a, b = r.choice(runs)
+					mid = (a + b) // 2
+					s = max(0, mid - r.randint(0, 3))
+					e = min(L, s + r.randint(1, 6))
+				else:
+					kind = "inside"
 			if kind == "inside":
 				s = r.randint(0, L - 1)
 				e = min(L, s + r.randint(1, 2 * w))
+			elif kind == "in_gap":
+				pass
 			elif kind == "boundary":
 				t = r.randint(1, max(1, L // w))
 				e = min(L, t * w)
